@@ -112,7 +112,7 @@ class C10(Property):
         "sequence of <= 3 (thorough 4) droplets on a 1-D lattice of 5 sites with radii {0.5, 1.0} (all arithmetic exact, so touching pairs and distances equal to the minimal distance are judged without tolerance) x min_distance {-0.5,0,0.5} x "
         "{no grid, periodic grid}. Oracle: minimal-image metric re-implemented; post-conditions of remove_overlapping (separation, "
         "identity and order of survivors, justification of every removal, strictly largest survives, idempotence) and definitions of "
-        "get_pairwise_distances / overlaps / get_neighbor_distances. Non-trivial = a droplet was removed, or >= 3 droplets with tied "
+        "get_pairwise_distances / overlaps / get_neighbor_distances, asked of one emulsion object before and again after the removal. Non-trivial = a droplet was removed, or >= 3 droplets with tied "
         "radii, or a periodic distance that differs from the Euclidean one; distinct = distinct spec hash."
     )
     assumptions = [
@@ -227,7 +227,7 @@ class C10(Property):
         # --- overlap removal -------------------------------------------------------------
         md = spec["min_distance"]
         slack = 0.0 if spec.get("exact") else 1e-9 * scale
-        em2 = Emulsion(objs, copy=False)
+        em2 = em  # the same object that answered the distance queries above (state kept between calls must stay consistent)
         ret = em2.remove_overlapping(md, grid=grid) if grid is not None else em2.remove_overlapping(md)
         ctx.require(ret is None, "remove:return", "remove_overlapping returned something")
         idx = []
@@ -265,6 +265,36 @@ class C10(Property):
             kmax = int(np.argmax(R))
             if all(R[kmax] > R[j] for j in range(n) if j != kmax):
                 ctx.require(kmax in idx, "remove:largest-removed", f"strictly largest droplet {kmax} was removed")
+        # the distance queries asked again of the same, now smaller emulsion
+        m = len(idx)
+        if removed:
+            for sub in (False, True):
+                M2 = em2.get_pairwise_distances(subtract_radius=sub, grid=grid)
+                exp2 = (Ssurf if sub else D)[np.ix_(idx, idx)].copy()
+                np.fill_diagonal(exp2, 0.0)
+                ok2 = isinstance(M2, np.ndarray) and M2.shape == (m, m) and bool(np.all(np.abs(M2 - exp2) <= 1e-12 * scale))
+                ctx.require(ok2, f"after-removal:pairwise:sub={sub}", f"distance matrix of the {m} survivors differs from the oracle")
+            try:
+                nd2 = em2.get_neighbor_distances(False)
+                nds2 = em2.get_neighbor_distances(True)
+            except Exception as exc:  # noqa: BLE001
+                ctx.fail("after-removal:neighbor-raises", f"get_neighbor_distances after remove_overlapping raised {type(exc).__name__}: {exc}")
+                nd2 = nds2 = None
+            if nd2 is not None:
+                if m == 0:
+                    ctx.require(len(nd2) == 0, "after-removal:neighbor", f"{nd2}")
+                elif m == 1:
+                    ctx.require(len(nd2) == 1 and np.isnan(nd2[0]), "after-removal:neighbor", f"{nd2}")
+                else:
+                    E2 = Deuc[np.ix_(idx, idx)].copy()
+                    np.fill_diagonal(E2, np.inf)
+                    ok_nd = len(nd2) == m and bool(np.all(np.abs(nd2 - E2.min(axis=1)) <= 1e-12 * scale))
+                    ctx.require(ok_nd, "after-removal:neighbor", f"neighbour distances of the survivors {nd2} vs row minima {E2.min(axis=1)}")
+                    if ok_nd and len(nds2) == m:
+                        for a in range(m):
+                            near = np.flatnonzero(E2[a] <= E2[a].min() * (1 + 1e-12))
+                            cands = [E2[a, b] - R[idx[a]] - R[idx[b]] for b in near]
+                            ctx.require(any(abs(nds2[a] - c) <= 1e-12 * scale for c in cands), "after-removal:neighbor-surface", f"survivor {a}: {nds2[a]} not in {cands}")
         before = list(em2)
         em2.remove_overlapping(md, grid=grid) if grid is not None else em2.remove_overlapping(md)
         ctx.require(len(em2) == len(before) and all(x is y for x, y in zip(em2, before)), "remove:not-idempotent", "second call removed more droplets")
